@@ -73,6 +73,35 @@ CHECKS = {
              "Exhaustive only for the small universes; real runs are sampled.",
         technique="TLA+ state machine + TLC exhaustive invariants/step assertions; TLC post-condition validation of every "
                   "sampled hypergraph; TLC step validation of hooked events (stateful trace validator)"),
+    "C13": dict(
+        level="model_checking", ref="3 C13",
+        text=("Chains.tla models both configuration-model chains as relations (Reshuffle: intersection kept in both, sizes kept, "
+              "rest redistributed, same-size pairs when detailed; directed single-node swaps refused on duplicates; Emit = set of "
+              "chain elements plus untouched hyperedges). TLC explores MC_Chains exhaustively, unbounded in n_steps: every input with "
+              "2..3(4) hyperedges over 3-5 nodes, every (detailed, size) variant, every outcome of every random choice; invariants "
+              "DegPerSizeConserved/TotalDegConserved, SizeBagConserved, EmitNoIncrease, EmitExactWhenCountKept, UntouchedIntact, "
+              "directed in/out degree and shape bag, and that the statement's clause set CMPost holds for every emitted result; "
+              "the code's distribution loop is shown to realise exactly the relation; four spec mutants must be rejected. The real "
+              "configuration_model / directed_configuration_model are run for hundreds (thorough: thousands) of seeded calls "
+              "(n_steps 0..30, edge/stub, detailed, size/order, four label maps) and TLC evaluates CMPost/CMPostDir on every "
+              "(input, output) pair; with HGX_VERIF hooks every logged chain step is re-executed as a Reshuffle/Swap step "
+              "(MODEL-DRIFT only). Exhaustive only for the small universes; real runs are sampled over seeds."),
+        note=TB + " numpy/random globals seeded per call; label='vertex' outside the quantifier; 'returned intact' = same node sets.",
+        technique="TLA+ chain model + TLC exhaustive invariants over all random outcomes; TLC trace validation of seeded runs (black-box post-condition, optional hooked step validation)"),
+    "C14": dict(
+        level="model_checking", ref="3 C14",
+        text=("Generators.tla states each generator as a relation between arguments and result as the property words it (RandHG, "
+              "ScaleFree, HOAD, AddRandom, Shuffle/ShuffleAll incl. p=0 changes nothing with weights and metadata, inplace=False "
+              "leaves the argument untouched) plus SeedFunctional as a batch-wide history variable. TLC checks small sampler models "
+              "exhaustively against the relations (MC_Generators; the re-add-all variant of random_shuffle is rejected on weighted "
+              "inputs, off-by-one HOAD times and sampling with replacement are rejected) and validates thousands of real calls "
+              "(quick 2400, thorough 31800) over parameter grids x seeds, incl. scale_free_hypergraph with default arguments, "
+              "correlated/uncorrelated, corr_target given or omitted, activity vectors with 0/1 entries, weighted/metadata-carrying "
+              "arguments under four label maps; the rewired hyperedges of random_shuffle are captured by a harness-side wrapper of "
+              "random.sample (weaker clauses when not observable). Sampled over seeds and grids, not exhaustive for the real code."),
+        note=TB + " Reproducibility demanded for random_hypergraph/random_uniform_hypergraph only; admissible grids keep requested counts "
+                  "feasible; a call must return within 30 s.",
+        technique="TLA+ relations + TLC exhaustive check of sampler models; TLC validation of logged calls incl. a batch-wide seed-functionality history"),
 }
 
 NOT_APPLICABLE = {
@@ -125,7 +154,7 @@ def main():
     print("MANIFEST.json: %d checks, %d not_applicable" % (len(checks), len(na)))
 
 
-HOOK_COMMITS = ["0508060", "9afb12b"]
+HOOK_COMMITS = ["0508060", "9afb12b", "50585b8"]
 
 if __name__ == "__main__":
     main()
